@@ -13,6 +13,7 @@ class Serpent(object):
 
     def __init__(self,K):
         self.K = Bits(K,bitorder=1)
+        assert len(self.K)<=256
         if len(self.K)<256:
             self.K = self.K//Bits(1,1)
         self.K.size = 256
